@@ -3,6 +3,7 @@ pub mod c01;
 pub mod c02;
 pub mod c03;
 pub mod c04;
+pub mod c06;
 pub mod c07;
 pub mod c11;
 pub mod c11w;
